@@ -267,6 +267,24 @@ def run(ctx):
             ok = is_local_op(t0['args'][0]) and (t0['args'][0]['l'] == 1 or any((org[0] == 'param' and org[1] == 1) or (org[0] == 'place' and org[1]['l'] == 1) or (isinstance(org[1], dict) and org[1].get('k') == 'assign' and org[1]['rv']['k'] == 'ref' and org[1]['rv']['pl']['l'] == 1) for org in origins(b, t0['args'][0])))
         C.check(ok, 'C18-SIB-fromstr', '%s|from_str-is-from_bytes-of-the-unchanged-text' % ty, 'FromStr for %s does more than from_bytes(input.as_bytes()) (%s): texts that are not exactly the text of an item convert' % (ty, [c.rsplit('::', 1)[-1] for c in cs]),
                 '%s:%d' % (b.file, b.line), sample={'type': ty, 'callees': [c.rsplit('::', 1)[-1] for c in cs]})
+    # the same for the version label: every text comparison of AutosarVersion::from_str compares the argument itself
+    b = P.find('<AutosarVersion as FromStr>::from_str')
+    if b is None:
+        C.anchor_missing('C18-SIB-fromstr', 'FromStr for AutosarVersion')
+    else:
+        def is_arg(o, depth=6):
+            if not is_local_op(o):
+                return False
+            if o['l'] == 1:
+                return True
+            ogs = origins(b, o)
+            return bool(ogs) and all((org[0] == 'param' and org[1] == 1) or (org[0] == 'place' and (org[1]['l'] == 1 or (depth > 0 and is_arg({'l': org[1]['l'], 'p': []}, depth - 1))))
+                                     or (isinstance(org[1], dict) and org[1].get('k') == 'assign' and org[1]['rv']['k'] == 'ref' and (org[1]['rv']['pl']['l'] == 1 or (depth > 0 and is_arg({'l': org[1]['rv']['pl']['l'], 'p': []}, depth - 1)))) for org in ogs)
+        eqs = [(pos, t) for pos, t in b.iter_calls() if call_matches(t, r'PartialEq.*>::(eq|ne)$|::eq_ignore_ascii_case$|::starts_with$|::ends_with$|::contains$')]
+        odd = [(pos, t) for pos, t in eqs if not any(is_arg(a) for a in t['args']) or call_matches(t, r'::eq_ignore_ascii_case$|::starts_with$|::ends_with$|::contains$')]
+        others = sorted({(callee_of(t) or '?').rsplit('::', 1)[-1] for pos, t in b.iter_calls() if not call_matches(t, r'PartialEq.*>::(eq|ne)$')})
+        C.check(not odd, 'C18-SIB-fromstr', 'AutosarVersion|from_str-compares-the-unchanged-text', 'FromStr for AutosarVersion compares something other than its argument with the schema file names (%s): a text that is not exactly the file name of a version converts' % ('derived through ' + ', '.join(others) if others else 'derived text'),
+                b.where(odd[0][0]) if odd else '%s:%d' % (b.file, b.line), sample={'type': 'AutosarVersion', 'comparisons': len(eqs), 'other_calls': others})
     return C.finish('Exact decision over the literal specification data extracted from the source text: every name of the three '
                     'name enums, every version, every cell of DATATYPES/ELEMENTS/SUBELEMENTS/ATTRIBUTES/VERSION_INFO/REF_ITEMS/'
                     'CHARACTER_DATA; plus MIR-level structure rules (comparison dominates transmute; listings and lookups read the same '
